@@ -132,7 +132,7 @@ class Builder:
         cmd = parts[0]
         if cmd == "source":
             self.add_source(parts[1], parts[2])
-        elif cmd in ("default-tags", "tags", "verus-flags"):
+        elif cmd in ("default-tags", "tags", "verus-flags", "rustc-flags"):
             pass  # read by vx.unit.unit_tags
         elif cmd == "include":
             ip = os.path.normpath(os.path.join(self.unit_dir, parts[1]))
@@ -622,6 +622,19 @@ class Builder:
             edits.append(Edit(a + mm.start(), a + mm.end(), [Seg(".vx_to_%s_bytes(" % mm.group(1), "repo", fn=qual)]))
             self.count("R4.to_bytes")
         for rule in (xopts or {}).get("rules", []):
+            if rule[0] == "R5":
+                # str Pattern / predicate methods -> trusted `VxStr` methods over the byte view (token-level renames)
+                for mm in re.finditer(r"\.\s*(ends_with|starts_with)\s*\(\s*(')?", m[a:b]):
+                    name = "vx_%s%s" % (mm.group(1), "_char" if mm.group(2) else "")
+                    edits.append(Edit(a + mm.start(), a + mm.start(1) + len(mm.group(1)), [Seg("." + name, "repo", fn=qual)]))
+                    self.count("R5")
+                for mm in re.finditer(r"\.\s*(strip_suffix|eq_ignore_ascii_case|is_ascii)\s*\(", m[a:b]):
+                    edits.append(Edit(a + mm.start(), a + mm.end(), [Seg(".vx_%s(" % mm.group(1), "repo", fn=qual)]))
+                    self.count("R5")
+                for recv in rule[1:]:
+                    for mm in re.finditer(r"(?<![A-Za-z0-9_.])" + re.escape(recv) + r"\s*\.\s*is_empty\s*\(", m[a:b]):
+                        edits.append(Edit(a + mm.start(), a + mm.end(), [Seg("%s.vx_is_empty(" % recv, "repo", fn=qual)]))
+                        self.count("R5")
             if rule[0] == "R6":
                 # Option<Vec<T>>::as_deref() -> trusted wrapper method (std's version is Deref-generic)
                 for mm in re.finditer(r"\.\s*as_deref\s*\(", m[a:b]):
